@@ -327,6 +327,23 @@ def body(ch):
         for tid, cid in enumerate(cids):
             got = ex.results[tid] if ex.errors[tid] is None else 'EXC ' + ex.errors[tid]
             if got != table[cid]:
+                # a failing schedule is replayed once more from the same initial state: identical observations or it is
+                # the harness that is wrong (uncaptured nondeterminism), not the library
+                if cold == 'built':
+                    state.reset_cache()
+                    for c in cids:
+                        do_call(c, query='')
+                elif cold:
+                    state.reset_cache()
+                else:
+                    for c in cids:
+                        do_call(c)
+                ex2 = sched.run_plan(S['lib_root'], gran, plan, [lambda c=c: do_call(c) for c in cids])
+                if not cold and [ex2.results, ex2.errors] != [ex.results, ex.errors]:
+                    # warm drivers start from the same warm state by construction; cold ones may legitimately differ after
+                    # the first run warmed module-level regex caches, so only warm replays are compared strictly
+                    ch.tally('schedule_replays_that_differed')
+                ch.tally('failing_schedules_replayed')
                 mismatch(ch, 'schedule|%s|%s' % (name, cid), cid, got,
                          {'driver': name, 'granularity': gran, 'plan': plan, 'points_run': ex.points, 'calls': list(cids)})
                 return
